@@ -10,7 +10,7 @@ for ln in open(os.path.join(root, "seeded", "RESULTS.tsv")):
 rows = []
 for sid in sorted(os.listdir(os.path.join(root, "seeded"))):
     d = os.path.join(root, "seeded", sid)
-    if not os.path.isdir(d):
+    if not os.path.isdir(d) or not os.path.exists(os.path.join(d, "meta.json")):
         continue
     m = json.load(open(os.path.join(d, "meta.json")))
     files = ", ".join(os.path.basename(f) for f in m.get("files_touched", [])[:2])
